@@ -154,8 +154,18 @@ CountModes ==
 Above(thr) == {<<q, i>> \in {<<q, i>> : q \in DOMAIN fr, i \in 1..Len(fr[1])} : fr[q][i].lev > thr}
 (* a band selected several times occupies several columns: its term is added once per column *)
 Columns(q, b) == Cardinality({i \in 1..Len(fr[1]) : fr[q][i].b = b})
-TermsOf(kind, thr) ==
-  {Term(0, s[1], fr[s[1]][s[2]].b, fr[s[1]][s[2]].lev, kind, cfg.w[s[1]] * Columns(s[1], fr[s[1]][s[2]].b)) : s \in Above(thr)}
+TermsOfW(kind, thr, W(_)) ==
+  {Term(0, s[1], fr[s[1]][s[2]].b, fr[s[1]][s[2]].lev, kind, W(s[1]) * Columns(s[1], fr[s[1]][s[2]].b)) : s \in Above(thr)}
+TrueW(q) == cfg.w[q]
+TermsOf(kind, thr) == {t \in TermsOfW(kind, thr, TrueW) : t.c # 0}
+(* what the compiled kernel takes for the weight of q-point q: the buffer read as contiguous int64. *)
+(* A strided view (every second element of a buffer whose other elements are Pad) shows w1, Pad,   *)
+(* w2, ...; narrower integers are modelled as "garbage" (WeightsMisread).                          *)
+Pad == 7
+KernelW(q) == IF (~Variant.weightsByValue) /\ cfg.wl = "strided"
+                THEN (IF q % 2 = 1 THEN cfg.w[(q + 1) \div 2] ELSE Pad)
+                ELSE cfg.w[q]
+KTermsOf(kind, thr) == {t \in TermsOfW(kind, thr, KernelW) : t.c # 0}
 
 ZeroPoint ==
   /\ pc = "zpe"
@@ -175,9 +185,9 @@ KernelC ==
   /\ pc = "kernelC"
   /\ propsC' = [j \in DOMAIN temps |->
                   IF temps[j] > 0
-                    THEN [F  |-> TermsOf(IF cfg.classical THEN "Fcl" ELSE "Fth", cut),
-                          S  |-> TermsOf(IF cfg.classical THEN "Scl" ELSE "S", cut),
-                          Cv |-> TermsOf(IF cfg.classical THEN "Cvcl" ELSE "Cv", cut)]
+                    THEN [F  |-> KTermsOf(IF cfg.classical THEN "Fcl" ELSE "Fth", cut),
+                          S  |-> KTermsOf(IF cfg.classical THEN "Scl" ELSE "S", cut),
+                          Cv |-> KTermsOf(IF cfg.classical THEN "Cvcl" ELSE "Cv", cut)]
                     ELSE NoBags]
   /\ pc' = "assembleC"
   /\ UNCHANGED <<cfg, cut, fr, nmodes, nint, zpe, temps, outC, outPy, proj>>
@@ -186,7 +196,7 @@ KernelC ==
 Row(t, den, F, S, Cv) == [t |-> t, div |-> WSum(cfg), den |-> den, F |-> F, S |-> S, Cv |-> Cv]
 
 (* the kernel reads the weight buffer as contiguous int64 (see Variant.weightsByValue) *)
-WeightsMisread == /\ ~Variant.weightsByValue /\ cfg.wl \notin {"int64", "uint64"}
+WeightsMisread == /\ ~Variant.weightsByValue /\ cfg.wl = "intc"
                   /\ \E j \in DOMAIN temps : propsC[j].F # {} \/ propsC[j].S # {} \/ propsC[j].Cv # {}
 
 AssembleC ==
